@@ -337,7 +337,9 @@ func expMessage(md protoreflect.MessageDescriptor, m *model.Msg, o jopts) (any, 
 			return nil, err
 		}
 		url := eStr(m.Get(1).Vals[0].B)
-		if specialJSON(emd.FullName()) {
+		if specialJSON(emd.FullName()) && emd.FullName() != "google.protobuf.Empty" {
+			// "value" wrapping is for types with a special JSON mapping; the specification says
+			// explicitly that Empty is not one of them (programming-guides/json#any)
 			obj := newObj()
 			obj.m["@type"], obj.m["value"] = url, inner
 			return obj, nil
